@@ -266,8 +266,18 @@ func c02Gating(c *Ctx, preds []*ssa.Function) {
 		fi.ignoreTail = saved
 		return path
 	}
+	// One obligation per EVENT. The key spells the object by its printed form, and two events can print alike: four
+	// validations that each build their result in one literal at their single exit are four "append of
+	// alloc:ValidationResult<complit>" (a helper that only returns an expression prints as that expression). Each of them
+	// is decided on its own; a repeated spelling gets an ordinal, so that the obligations (and the vacuity count, which is
+	// a count of gated events) do not merge by accident of spelling.
+	keyUsed := map[string]int{}
 	check := func(fn *ssa.Function, ev event) {
 		key := fmt.Sprintf("gated/%s/%s/%s", fnName(fn), descDepth(ev.base, 3), strings.ReplaceAll(ev.what, " ", "-"))
+		keyUsed[key]++
+		if n := keyUsed[key]; n > 1 {
+			key += fmt.Sprintf("#%d", n)
+		}
 		if path := witness(fn, ev); path != nil {
 			c.Bad(key, rule, w.InstrPos(ev.in), "after this "+ev.what+" of "+desc(ev.base)+" a success-capable exit is reachable without gating the result", path...)
 		} else {
@@ -599,6 +609,13 @@ func c02Inventory(c *Ctx, preds []*ssa.Function) {
 									c.OK(key, ruleE, w.InstrPos(x))
 								} else if isFormattingCall(x) {
 									c.OK(key, ruleE, w.InstrPos(x))
+								} else if g := staticCallee(x); g != nil && g.Blocks != nil && fnPkg(fn).Path() == modPath+"/verifier/trustpolicy" && fnPkg(g) == fnPkg(fn) && freshMap(ld, 0) {
+									// the map of a level under construction (made in this function, never one of the levels in force)
+									// handed to a helper of the trust policy package that fills it: building a custom level. What the
+									// helper stores is held to the custom-level rules (every store into an enforcement map of the
+									// package is)
+									kinds["seeding a custom level in package trustpolicy"] = true
+									c.OK(key, ruleE, w.InstrPos(x))
 								} else {
 									c.Bad(key, ruleE, w.InstrPos(u), "unexpected use of the enforcement map: handed to "+n)
 								}
@@ -765,7 +782,6 @@ func c02Custom(c *Ctx) {
 		c.Unk("custom/anchor", "anchor: GetVerificationLevel", "-", "method not found")
 		return
 	}
-	fi := w.Info(fn)
 	c.SeenFn(fn.String())
 	tr, _ := w.constString("verifier/trustpolicy", "TypeRevocation")
 	ti, _ := w.constString("verifier/trustpolicy", "TypeIntegrity")
@@ -787,7 +803,7 @@ func c02Custom(c *Ctx) {
 				}
 				c.Evals++
 				key := "custom/fresh-map/" + fnName(f)
-				if freshMap(mu.Map, 0) {
+				if c02FreshMapAt(w, mu.Map, 0) {
 					c.OK(key, ruleFresh, w.InstrPos(mu))
 				} else {
 					c.Bad(key, ruleFresh, w.InstrPos(mu), "store into an enforcement map that is not freshly made here: "+desc(mu.Map))
@@ -795,16 +811,35 @@ func c02Custom(c *Ctx) {
 			}
 		}
 	}
-	// the override store and its gates
+	// the override store and its gates. The store is looked for in GetVerificationLevel itself and, failing that, in the
+	// functions on its call tree (the loop over the overrides, or the store alone, moved into a helper): the gates are then
+	// the facts on every path from the entry of GetVerificationLevel to the store — those inside the helper and those on
+	// the way to its single call site — all spelled in the frame of GetVerificationLevel (c18Frame, the substitution the
+	// engine applies when it composes summaries).
+	fr := newC18Frame(w, fn)
+	const enfMap = "map[ngo/verifier/trustpolicy.ValidationType]ngo/verifier/trustpolicy.ValidationAction"
 	var ov *ssa.MapUpdate
-	for _, b := range fn.Blocks {
-		for _, in := range b.Instrs {
-			if mu, ok := in.(*ssa.MapUpdate); ok {
-				kd, vd := desc(mu.Key), desc(mu.Value)
-				if strings.Contains(kd, ".Enforcement)") && strings.Contains(vd, ".Enforcement)") {
-					continue
+	for _, f := range fr.tree {
+		if ov != nil && f != fn {
+			break
+		}
+		if f != fn && (f.Pkg != fn.Pkg || f.Name() == "init" || f.Parent() != nil) {
+			continue
+		}
+		for _, b := range f.Blocks {
+			for _, in := range b.Instrs {
+				if mu, ok := in.(*ssa.MapUpdate); ok {
+					if f != fn && abbrev(types.TypeString(mu.Map.Type(), nil)) != enfMap {
+						continue
+					}
+					// the seeding copy of the base level's map is not an override (in a helper: what the helper ranges over is
+					// what its caller handed in)
+					kd, vd := fr.val(mu.Key), fr.val(mu.Value)
+					if strings.Contains(kd, ".Enforcement)") && strings.Contains(vd, ".Enforcement)") {
+						continue
+					}
+					ov = mu
 				}
-				ov = mu
 			}
 		}
 	}
@@ -812,39 +847,59 @@ func c02Custom(c *Ctx) {
 		c.Unk("custom/override-store", "anchor: the store of an override into the custom level", w.FnPos(fn), "not found")
 		return
 	}
-	g := fi.GuardsOf(ov)
-	kd, vd := desc(ov.Key), desc(ov.Value)
+	ovFn := ov.Parent()
+	if ovFn != fn {
+		c.SeenFn(ovFn.String())
+	}
+	g := fr.guards(ov)
+	kd, vd := fr.val(ov.Key), fr.val(ov.Value)
 	c.Evals++
-	c.Check(labelHas(g, "NE("+kd+`,const:"")`), "custom/unsupported-type", "effect-site gate: the override store is reachable only for a supported validation type", w.InstrPos(ov),
+	// "supported": not the empty answer of the search through the table of supported values, or found in that table by the
+	// library search — the table IS the definition of supported
+	inTable := func(table, d string) bool {
+		return labelHas(g, "T(call:slices.Contains(global:ngo/verifier/trustpolicy."+table+","+d+"))")
+	}
+	c.Check(labelHas(g, "NE("+kd+`,const:"")`) || inTable("ValidationTypes", kd), "custom/unsupported-type", "effect-site gate: the override store is reachable only for a supported validation type", w.InstrPos(ov),
 		"override stored although the type matched no supported type; guards: "+summarizeLabels(g, 10))
-	c.Check(labelHas(g, "NE("+vd+`,const:"")`), "custom/unsupported-action", "effect-site gate: the override store is reachable only for a supported action", w.InstrPos(ov),
+	c.Check(labelHas(g, "NE("+vd+`,const:"")`) || inTable("ValidationActions", vd), "custom/unsupported-action", "effect-site gate: the override store is reachable only for a supported action", w.InstrPos(ov),
 		"override stored although the action matched no supported action; guards: "+summarizeLabels(g, 10))
 	c.Check(labelHas(g, "NE("+kd+fmt.Sprintf(",const:%q)", ti)), "custom/integrity", "effect-site gate: the override store is reachable only for type != integrity", w.InstrPos(ov),
 		"integrity can be overridden; guards: "+summarizeLabels(g, 10))
-	// skip only for revocation: cutting {type == revocation, action != skip} must disconnect the store
+	// skip only for revocation: cutting every edge that can be passed only if {type == revocation or action != skip} must
+	// disconnect the store. Which edges those are is decided by c02SkipGateCut: the tests themselves, and the "went well"
+	// edges of a validator / predicate helper that is handed the pair and answers well only behind such tests.
 	skipCut := func(ffi *FnInfo, kd, vd string) map[edgeKey]bool {
-		return ffi.edgesMatching(func(l string, _ *ssa.If, _ bool) bool {
-			one := func(a string) bool {
-				return a == "EQ("+kd+fmt.Sprintf(",const:%q)", tr) || a == "NE("+vd+fmt.Sprintf(",const:%q)", as)
-			}
-			if one(l) {
-				return true
-			}
-			// the value of `action == skip && type != revocation` tested as one condition: its false edge says one of the two
-			if op, alts := splitTopArgs(l); op == "OR" && len(alts) > 0 {
-				for _, a := range alts {
-					if !one(a) {
-						return false
-					}
-				}
-				return true
-			}
-			return false
-		})
+		return c02SkipGateCut(w, ffi.Fn, kd, vd, tr, as, 0)
 	}
-	cut := skipCut(fi, kd, vd)
-	okSkip := len(cut) > 0 && !fi.reachHit(entryState(), cut, blocksOf(ov))
-	if !okSkip {
+	// decided where the store is; if the store's own function does not gate it, at the call site of that function, with
+	// the pair spelled as the arguments, and so on up to GetVerificationLevel
+	okSkip := false
+	{
+		var at ssa.Instruction = ov
+		fkd, fvd := desc(ov.Key), desc(ov.Value)
+		for depth := 0; depth < 4 && !okSkip; depth++ {
+			f := at.Parent()
+			ffi := w.Info(f)
+			cut := skipCut(ffi, fkd, fvd)
+			c.Evals++
+			if len(cut) > 0 && !ffi.reachHit(entryState(), cut, blocksOf(at)) {
+				okSkip = true
+				break
+			}
+			if f == fn || !fr.subst(f).ok {
+				break
+			}
+			call := fr.sites[f][0]
+			var names, descs []string
+			for i, q := range f.Params {
+				names = append(names, q.Name())
+				descs = append(descs, desc(call.Call.Args[i]))
+			}
+			fkd, fvd = substParams(fkd, names, descs), substParams(fvd, names, descs)
+			at = call
+		}
+	}
+	if !okSkip && ovFn == fn {
 		// the pair (type, action) is resolved by an unexported helper whose success the store requires: the same disjunctive gate
 		// on the helper's own exits, for the values it hands back
 		ke, kok := ov.Key.(*ssa.Extract)
@@ -883,17 +938,31 @@ func c02Custom(c *Ctx) {
 	s := w.Summarize(fn, Mode{Kind: mErr})
 	c.Evals += s.States
 	var customExit *ExitSum
+	// the exits that hand back a level made on the spot (by GetVerificationLevel or by a constructor / helper it calls), as
+	// opposed to one of the package-level levels: what the result can be, followed across helper boundaries (c02Leaves)
+	var customExits []*ExitSum
 	for _, ex := range s.Exits {
 		if len(ex.Ret.Results) > 0 {
-			if _, isAlloc := ex.Ret.Results[0].(*ssa.Alloc); isAlloc {
-				customExit = ex
+			leaves, _ := c02Leaves(w, c02ExitResults(ex)[0])
+			for _, l := range leaves {
+				if _, isAlloc := l.(*ssa.Alloc); isAlloc {
+					customExit = ex
+				}
+			}
+			if customExit == ex {
+				customExits = append(customExits, ex)
 			}
 		}
 	}
 	if customExit == nil {
 		c.Unk("custom/skip-base", "anchor: the exit returning the custom level", w.FnPos(fn), "not found")
 	} else {
-		_, ok := hasLabel(customExit.Checked, "NE(", "global:ngo/verifier/trustpolicy.LevelSkip")
+		ok := true
+		for _, ex := range customExits {
+			if _, h := hasLabel(ex.Checked, "NE(", "global:ngo/verifier/trustpolicy.LevelSkip"); !h {
+				ok, customExit = false, ex
+			}
+		}
 		c.Check(ok, "custom/skip-base", "must-check: a custom level is returned only when the base level is not skip", w.InstrPos(customExit.Ret),
 			"a custom level can be derived from skip; facts: "+summarizeLabels(customExit.Checked, 10))
 	}
@@ -1441,14 +1510,16 @@ func c02Routing(c *Ctx, ro *c02Roles) {
 			}
 		}
 	}
-	containsEdge := func(capConst string, want bool) EdgeSel {
-		return func(l string, iff *ssa.If, truth bool) bool {
-			pre := "F("
-			if want {
-				pre = "T("
-			}
-			return strings.HasPrefix(l, pre+"call:slices.Contains(") && strings.HasSuffix(l, fmt.Sprintf(",const:%q))", capConst))
+	// "capability X is on the plugin's declared list": the edges of F on which the answer is known, whether F asks
+	// slices.Contains(list, X) on the spot or tests a flag that was set while the list was built (c02Ownership)
+	flagMemo := map[ssa.Value]*c02Flag{}
+	ownTI := c02Ownership(ro, ti, []string{rv, ti}, flagMemo)
+	ownRV := c02Ownership(ro, rv, []string{rv, ti}, flagMemo)
+	ownWhy := func(o *c02Own) string {
+		if o.why == "" {
+			return ""
 		}
+		return "; a capability flag was found but not followed: " + o.why
 	}
 	// identity
 	{
@@ -1458,15 +1529,23 @@ func c02Routing(c *Ctx, ro *c02Roles) {
 		} else {
 			g := fi.GuardsOf(idCall)
 			_, guarded := hasLabel(g, "F(call:slices.Contains(", fmt.Sprintf(",const:%q))", ti))
+			// the same on the edge sets of the ownership answer (Contains form or flag form, c02Ownership): the native check
+			// cannot be reached without passing an edge on which "trusted identity is not on the declared list" is known
+			if !guarded && len(ownTI.f) > 0 && !fi.reachHit(entryState(), ownTI.f, blocksOf(idCall)) {
+				guarded = true
+			}
 			// completeness: cutting {plugin owns identity} and the edges into the native check disconnects success
-			cut := fi.edgesMatching(containsEdge(ti, true))
+			cut := map[edgeKey]bool{}
+			for e := range ownTI.t {
+				cut[e] = true
+			}
 			cutInto(fi, idCall.Block(), cut)
 			// only paths after the authenticity stage matter: start at entry
 			path := fi.successWitness(Mode{Kind: mErr}, entryState(), cut)
 			c.Evals += 2
 			// the capability list tested is the plugin's declared one
 			c.Check(guarded && path == nil, "routing/identity", rule, w.InstrPos(idCall),
-				fmt.Sprintf("guarded-by-capability=%v; a success path that skips the native check without the plugin owning it exists=%v", guarded, path != nil), path...)
+				fmt.Sprintf("guarded-by-capability=%v; a success path that skips the native check without the plugin owning it exists=%v%s", guarded, path != nil, ownWhy(ownTI)), path...)
 			// its failure sets the authenticity result's Error (then gated by rule b)
 			errD := descTailErr(idCall)
 			sf, sfi := F, fi
@@ -1501,7 +1580,13 @@ func c02Routing(c *Ctx, ro *c02Roles) {
 			g := fi.GuardsOf(revCall)
 			_, g1 := hasLabel(g, "NE(", skipRev)
 			_, g2 := hasLabel(g, "F(call:slices.Contains(", fmt.Sprintf(",const:%q))", rv))
-			cut := fi.edgesMatching(containsEdge(rv, true))
+			if !g2 && len(ownRV.f) > 0 && !fi.reachHit(entryState(), ownRV.f, blocksOf(revCall)) {
+				g2 = true
+			}
+			cut := map[edgeKey]bool{}
+			for e := range ownRV.t {
+				cut[e] = true
+			}
 			for e := range fi.edgesMatching(func(l string, _ *ssa.If, _ bool) bool {
 				return strings.HasPrefix(l, "EQ(") && strings.HasSuffix(l, skipRev)
 			}) {
@@ -1511,7 +1596,7 @@ func c02Routing(c *Ctx, ro *c02Roles) {
 			path := fi.successWitness(Mode{Kind: mErr}, entryState(), cut)
 			c.Evals += 2
 			c.Check(g1 && g2 && path == nil, "routing/revocation", rule, w.InstrPos(revCall),
-				fmt.Sprintf("guarded-by-not-skip=%v guarded-by-capability=%v; success path skipping native revocation without skip/plugin ownership=%v", g1, g2, path != nil), path...)
+				fmt.Sprintf("guarded-by-not-skip=%v guarded-by-capability=%v; success path skipping native revocation without skip/plugin ownership=%v%s", g1, g2, path != nil, ownWhy(ownRV)), path...)
 		}
 	}
 	// the capability list: declared capabilities filtered to the two verification capabilities
@@ -1527,6 +1612,10 @@ func c02Routing(c *Ctx, ro *c02Roles) {
 			}
 		}
 	}
+	// no Contains call: the list the capability flags speak about (the one built in the loop that sets them, or scanned)
+	if capsDeclared == nil && len(ownTI.lists) > 0 {
+		capsDeclared = ownTI.lists[0]
+	}
 	// The two capability lists are followed on SSA values across helper boundaries (c02Leaves): the list a helper hands
 	// back is what its success exits return, the list a helper ranges over is the argument of its call site. Where the code
 	// that builds a list lives (P, the lookup helper, a filter helper) does not matter; what every value the list can be was
@@ -1539,6 +1628,13 @@ func c02Routing(c *Ctx, ro *c02Roles) {
 		detail := "the capability list used for routing is not the filtered metadata.Capabilities of the installed plugin"
 		if lst.why != "" {
 			detail += ": " + lst.why
+		}
+		// every ownership answer (both capabilities, every place it is asked or kept) is about that list: the same origins
+		for _, l := range append(append([]ssa.Value{}, ownTI.lists...), ownRV.lists...) {
+			if ok && l != capsDeclared && !(c02SubsetOf(w, l, capsDeclared) && c02SubsetOf(w, capsDeclared, l)) {
+				ok = false
+				detail = "the routing asks about a capability list other than the declared one: " + desc(l)
+			}
 		}
 		c.Check(ok, "routing/declared-capabilities", rule, w.FnPos(F), detail)
 	}
